@@ -1480,7 +1480,7 @@ class Pregex():
                 return _Type.Token, True
 
         # Simplify classes by removing extra characters.
-        pattern = _re.sub(r"(?<!\\)\[.+?(?<!\\)\]", "[a]", pattern)
+        pattern = _re.sub(r"(?<!\\)\[.+?(?<!\\)\]", "[a]", pattern, flags=_re.DOTALL)
 
         if pattern == "[a]":
             return _Type.Class, True
